@@ -1016,8 +1016,14 @@ def render_sersic_2d(
         * bn ** (2 * n)
         / (jnp.exp(bn + jax.scipy.special.gammaln(2 * n)) * r_eff**2 * jnp.pi * 2 * n)
     )
-    z = jnp.sqrt((x_maj / a) ** 2 + (x_min / b) ** 2)
-    out = amplitude * jnp.exp(-bn * (z ** (1 / n) - 1)) / (1.0 - ellip)
+    z_sq = (x_maj / a) ** 2 + (x_min / b) ** 2
+    # sqrt and z**(1/n) have infinite slope at z = 0 (an evaluation point exactly on
+    # the source centre): evaluate them on a safe argument there so that reverse-mode
+    # gradients stay finite; the value at z = 0 is unchanged
+    off_centre = z_sq > 0
+    z = jnp.sqrt(jnp.where(off_centre, z_sq, 1.0))
+    z_pow = jnp.where(off_centre, z ** (1 / n), 0.0)
+    out = amplitude * jnp.exp(-bn * (z_pow - 1)) / (1.0 - ellip)
     return out
 
 
